@@ -63,7 +63,8 @@ fn gen(ch: &mut Ch, thorough: bool) -> Option<Case> {
         return None;
     }
     let self_where = ch.pick(5);
-    if via_macro && self_where != 0 {
+    // (macro-generated impls also with the predicate on `Self` that only the base form satisfies)
+    if via_macro && self_where != 0 && self_where != 4 {
         return None;
     }
     if self_where == 2 && !generic {
